@@ -146,6 +146,8 @@ func specGenuineER6(s *icmpDriver, p *packets.FrameParser, t uint8) bool {
 //@ func newICMPDriver
 //@ safety C10
 //@ ensures[drv.new]  ret0 != nil && fresh(ret0) && ret0.sink == sink && ret0.source == source
+// every driver draws its own echo identifier from the allocator (two live runs never match on each other's replies)
+//@ ensures[C01+C05+C11.drv.echoid] ncalls(nextEchoID) == old(ncalls(nextEchoID)) + 1 && ret0.echoID == lastres(nextEchoID, 0)
 //@ modifies global curEchoID
 
 //@ func (*icmpDriver).Close
@@ -167,6 +169,8 @@ func specGenuineER6(s *icmpDriver, p *packets.FrameParser, t uint8) bool {
 //@ ensures[C10.icmp.closed]   forallint(h, !old(selb(isOpen, h)) ==> !selb(isOpen, h))
 //@ ensures[C10.icmp.others]   forallint(h, old(selb(isOpen, h)) ==> selb(isOpen, h) && sel(closeN, h) == old(sel(closeN, h)))
 //@ before TracerouteParallel assert[C10.icmp.open] selb(isOpen, ref(driver.source)) && selb(isOpen, ref(driver.sink))
+// C12 (composition step): the ICMP matcher only ever accepts ICMPv4/ICMPv6 (sound.kind), so the ICMP filter hides nothing
+//@ before Source.SetPacketFilter assert[C12.icmp.filter] callarg0.FilterType == packets.FilterTypeICMP
 //@ modifies *, ghost isOpen, ghost closeN, ghost clock, ghost sendN, ghost sendLog, ghost sendClock
 
 //@ func RunICMPTraceroute
